@@ -229,5 +229,5 @@ def run(tier, seed):
                     run.samples.append({'witness': r['name'], 'case': r['desc'], 'native_agrees': True})
             else:
                 run.violation(r['name'][:40], {'property': 'C10', 'obligation': r['name'], 'case': r['desc'], 'script': r['script'],
-                                               'rebuilt_level': got, 'original': r.get('orig')})
+                                               'rebuilt_level': got, 'original': r.get('orig'), 'native': nat})
     return run.finish(explanation='structural round trips (snapshot, &snapshot, level-data) from an arbitrary level state, constructors fed arbitrary carried aggregates, and the listing under every map iteration order')
